@@ -4,6 +4,7 @@ import (
 	"fmt"
 	"math/rand"
 	"strings"
+	"sync"
 	"unicode"
 
 	"bwverif/gen"
@@ -436,6 +437,58 @@ func c16Random(r *rt.Rec, rng *rand.Rand, n int) {
 	}
 }
 
+// c16Parallel: eight goroutines lex the same inputs at the same time; every
+// token stream must be the one obtained when nothing else is lexing.
+func c16Parallel(r *rt.Rec, rng *rand.Rand, rounds int) {
+	g := gram.Load(grammar.BQL())
+	_, ma := g.MinLens()
+	for round := 0; round < rounds; round++ {
+		var inputs []string
+		for len(inputs) < 40 {
+			t := g.RandomTree(rng, "START", 0, 4+rng.Intn(5), ma, 0.3+0.4*rng.Float64())
+			inputs = append(inputs, gram.Render(g.Tokens(t), gram.DefaultChooser(rng)))
+			l := gen.HLit(rng, false)
+			if s := l.String(); strings.Count(s, `"`) == 2 {
+				inputs = append(inputs, s+" "+gen.HPred(rng).String()+" "+flipCase(rng, s))
+			}
+		}
+		want := make([]string, len(inputs))
+		for i, in := range inputs {
+			toks, _ := gram.Lex(in, 0)
+			want[i] = tokString(toks)
+		}
+		r.Note(fmt.Sprintf("parallel lexers round %d, e.g. %s", round, trim(inputs[0], 120)))
+		var wg sync.WaitGroup
+		var mu sync.Mutex
+		var bad []string
+		start := make(chan struct{})
+		for w := 0; w < 8; w++ {
+			wg.Add(1)
+			go func(w int) {
+				defer wg.Done()
+				<-start
+				for k := 0; k < 3*len(inputs); k++ {
+					i := (k*7 + w*5) % len(inputs)
+					toks, ok := gram.Lex(inputs[i], []int{0, 1, 16}[k%3])
+					if got := tokString(toks); !ok || got != want[i] {
+						mu.Lock()
+						bad = append(bad, fmt.Sprintf("%q: alone %s | in parallel %s", inputs[i], want[i], got))
+						mu.Unlock()
+						return
+					}
+				}
+			}(w)
+		}
+		close(start)
+		wg.Wait()
+		r.Eval(8 * 3 * len(inputs))
+		if len(bad) > 0 {
+			r.Violation("parallel-lexers", "an input lexed while other lexers were running gives another token stream than when lexed alone", map[string]interface{}{"examples": showAll(bad, 3)})
+		}
+		r.Nontrivial(fmt.Sprintf("parallel|%d|%s", round, inputs[0]))
+	}
+}
+
 func init() {
 	register(&rt.Check{
 		ID:    "C16",
@@ -460,6 +513,8 @@ func init() {
 				{Name: "printed", N: 16, Run: func(i int, r *rt.Rec) { c16Printed(r, gen.Rng(seed, "c16p", i), pr/16) }},
 				{Name: "statements", N: 16, Run: func(i int, r *rt.Rec) { c16Statements(r, gen.Rng(seed, "c16s", i), stm/16) }},
 				{Name: "random", N: 16, Run: func(i int, r *rt.Rec) { c16Random(r, gen.Rng(seed, "c16r", i), rnd/16) }},
+				{Name: "parallel-lexers", N: 8, Procs: 16, Run: func(i int, r *rt.Rec) { c16Parallel(r, gen.Rng(seed, "c16q", i), pr/300) }},
+				{Name: "parallel-lexers-race", N: 4, Race: true, Procs: 16, Run: func(i int, r *rt.Rec) { c16Parallel(r, gen.Rng(seed, "c16qr", i), 1+pr/3000) }},
 			}
 		},
 	})
